@@ -38,13 +38,23 @@ pub static EXP: [[AtomicU8; 8]; 5] = [ZROW; 5];
 pub static ORACLE: AtomicBool = AtomicBool::new(false);
 
 /// record one call of the closure of `stage` on the element tagged `v & 7`
+pub static LAST_TAG: [AtomicU8; 5] = [Z8; 5];
+pub static ORDER_BAD: AtomicBool = AtomicBool::new(false);
 pub fn bump(stage: usize, v: u8) {
     let t = (v & 7) as usize;
     if ORACLE.load(AO::Relaxed) {
         EXP[stage][t].fetch_add(1, AO::Relaxed);
     } else {
         CALLS[stage][t].fetch_add(1, AO::Relaxed);
+        // source order of the arguments of each stage (meaningful in sequential mode only)
+        if (t as u8) < LAST_TAG[stage].load(AO::Relaxed) {
+            ORDER_BAD.store(true, AO::Relaxed);
+        }
+        LAST_TAG[stage].store(t as u8, AO::Relaxed);
     }
+}
+pub fn order_ok() -> bool {
+    !ORDER_BAD.load(AO::Relaxed)
 }
 pub fn calls(stage: usize, t: usize) -> u8 {
     CALLS[stage][t].load(AO::Relaxed)
